@@ -63,7 +63,19 @@ def main(argv=None):
         os.remove(old)
 
     try:
-        units = [u for u in load_units() if prop in u.tags()]
+        allu = load_units()
+        units = [u for u in allu if prop in u.tags()]
+        # units whose contracts are imported (as assumed) must be proved in the same run
+        names = set(u.name for u in units)
+        grew = True
+        while grew:
+            grew = False
+            for u in list(units):
+                for imp in u.imports():
+                    if imp not in names:
+                        units += [x for x in allu if x.name == imp]
+                        names.add(imp)
+                        grew = True
     except UnitError as e:
         print('UNDECIDED property=%s unit files unreadable: %s' % (prop, e))
         return 2
